@@ -43,6 +43,10 @@ inductive Ev where
   | softfail (root : Option Nat) (clause : Nat)
   | conflicting (clause : Nat)
   | unsolvable (clause : Nat)
+  /-- `queue_solvable` marked the solvable (root = `none`) as processed and queued its dependency request -/
+  | queuedSolv (s : Option Nat)
+  /-- `queue_package` marked the package as processed and queued its candidates request -/
+  | queuedPkg (n : Nat)
 deriving Repr, Inhabited
 
 /-- why a run stopped abnormally -/
@@ -98,6 +102,11 @@ structure S where
   cancelTransient : Bool := false
   callsStarted : Nat := 0
   raised : Bool := false
+  -- asynchronous provider (MDet/Async.lean): completion order of the outstanding requests, executor event log
+  asyncMode : Bool := false
+  sched : List String := []                 -- labels of the requests the executor completes, in order
+  aevents : List String := []               -- `pending …` / `complete <label>`, newest first
+  runStart : Nat := 0                       -- `SolverState::starting_level` of the current run_sat
   -- Encoder
   queue : List Task := []
   conflicting : List Nat := []              -- oldest first
@@ -234,6 +243,8 @@ def evLine : Ev → String
   | .softfail r c => s!"softfail {rootStr r} {c}"
   | .conflicting c => s!"conflicting {c}"
   | .unsolvable c => s!"unsolvable {c}"
+  | .queuedSolv r => s!"queued solvable {rootStr r}"
+  | .queuedPkg n => s!"queued package {n}"
 
 /-- the history as events of the abstract system (`cands` completes the preceding `requires` clause) -/
 def absEvents (evs : List Ev) : List Abs.Event :=
